@@ -9,14 +9,16 @@ THEOREMS = ["C08_step_unwinding", "C08_step_unwinding_strong", "C08_step_secrets
 STRENGTH = {t: "proof-unbounded" for t in THEOREMS}
 RULE = ("two databases on one node set up identically except for the contents (and, for one key, the existence) of $$ keys; two "
         "non-administrator sessions (database-token or user-token) send the same command sequence (length 1-6) over every command "
-        "word with key arguments from {$$token, $$user_x, $$permission_$x, $$secret, $secret, secret, *, $$*, *$$}; replies and "
+        "word with key arguments from {$$token, $$user_x, $$permission_$x, $$secret, $secret, secret, *, $$*, *$$, and secure names padded with tab / CR / NBSP / VT, in another case, with a trailing ';'}; replies and "
         "inboxes must be identical and every $$ key unchanged; exhaustive for length 1 (every command word x every key), seeded "
         "random beyond; distinct = distinct canonical trace; non-trivial = at least one command touched a $$ key name and one was served")
 ASSUMPTIONS = ["the two 'servers' are two databases of one node (same code paths; op ids and counters evolve symmetrically)",
                "the login token and the session's own permission list are the same on both sides (the property's stated exceptions)"]
 TRUSTED = []
 
-KEYARGS = ["$$token", "$$user_x", "$$permission_$x", "$$secret", "$secret", "secret", "*", "$$*", "*$$", "$$extra", "$$"]
+KEYARGS = ["$$token", "$$user_x", "$$permission_$x", "$$secret", "$secret", "secret", "*", "$$*", "*$$", "$$extra", "$$",
+           # names that only differ from a secure key by white space / case / a separator a handler might normalise away
+           "\t$$secret", "\r$$user_x", "$$secret\t", "\u00a0$$secret", "$$secret\r", "\x0b$$token", "$$SECRET", "$$secret;", "\t$$permission_$x"]
 TEMPL = ["get %s", "get-safe %s", "watch %s", "unwatch %s", "set %s hack", "set-safe %s 0 hack", "set-safe %s 99 hack", "increment %s", "increment %s 4",
          "remove %s", "keys %s", "ls %s", "resolve 5 @DB %s 3 hack", "resolve 7 @DB %s -1 hack", "replicate @DB %s -1 hack", "replicate-remove @DB %s",
          "replicate-increment @DB %s 2", "rp 9 set %s hack", "rp 9 get %s", "rp 9 replicate @DB %s 1 hack", "create-user %s pw", "set-permissions %s rwix $$*",
